@@ -12,9 +12,20 @@ def run(res, work, tier, seed):
     side.tag = "r"
     with ThreadPoolExecutor(max_workers=1) as ex:
         fut = ex.submit(race_clause, side, work, tier, seed)   # at the same time as the scheduler-driven runs
-        m3common.sched_runs(res, work, tier, seed, m3common.C14, step_level=True)
-        fut.result()
+        panics = []
+        try:
+            m3common.sched_runs(res, work, tier, seed, m3common.C14, step_level=True)
+        except vlib.LibraryPanic as e:
+            panics.append(e)
+        try:
+            fut.result()
+        except vlib.LibraryPanic as e:
+            panics.append(e)
     res.merge(side)
+    for e in panics[:1]:
+        # "completes without panic": the driver process died of a panic raised inside the m3 package (on one of the reporter's
+        # own goroutines nobody can recover it)
+        res.violation("NeverPanics", str(e), dict(stack=e.stack))
     res.rule = ("executions of the real M3 reporter under the controlled scheduler against loopback UDP sinks: exhaustive DFS over the thread choices at the handshake points "
                 "(pending++ / done check / select-send / pending-- against CAS done / spin / close donech / close queue / wait, and the batching goroutine's receive) for one producer x "
                 "Close + late report, one producer x two concurrent Close callers, Flush x Close, two producers x Close with queue size 1; seeded random schedules over all hook points for "
@@ -69,6 +80,9 @@ def race_clause(res, work, tier, seed):
                 if "tally" in txt and "/m3" in txt:
                     reports.append(txt)
             if not logs and p.returncode != 0:
+                lp = vlib.library_panic(p.stdout)
+                if lp:
+                    raise vlib.LibraryPanic("driver %s died of a panic inside the library: %s" % (cmd, lp[0]), lp[1])
                 raise vlib.Infra("race-detector run of %s failed rc=%d\n%s" % (cmd, p.returncode, p.stdout[-3000:]))
     res.extra["race_detector_runs"] = runs
     res.evaluations += runs
